@@ -210,9 +210,14 @@ def risky_body(b):
     return False
 
 
-def classify_body(b):
+def sanitize(b):
+    """Random bodies never contain the four container type codes that carry a 32-bit size."""
+    return bytes(0x29 if (ch & 0x7F) in b"([<>" else ch for ch in b)
+
+
+def classify_body(b, trusted=False):
     """'risky' | 'unloadable' | 'noncode' | 'code' for the bytes that follow a header."""
-    if risky_body(b):
+    if not trusted and risky_body(b):
         return "risky"
     try:
         o = marshal.loads(bytes(b))
@@ -344,9 +349,10 @@ def _echo_alias(args, stdin=None):
     return " ".join(args) + "\n"
 
 
-def _setup(scratch):
+def _setup(scratch, tabledir=None):
     if _state:
         return _state
+    _state["tabledir"] = tabledir
     from vlib import session
 
     os.makedirs(scratch, exist_ok=True)
@@ -481,6 +487,31 @@ def ref_observe(text, filename, mode, glb):
 
 CHILD_SHIM = ("import sys; sys.path.insert(0, %r); from vlib import tables; tables.install(); "
               "from xonsh.main import main; main()")
+# the same, with the two table modules taken from byte-compiled copies the parent made once per run
+# (compiling the 1.2 MB table source costs 0.5 s per child otherwise)
+FAST_SHIM = ("import sys, marshal, types, xonsh\n"
+             "for mod, f in (('xonsh.parser_table', 'vp_table'), ('xonsh.completion_parser_table', 'vc_table')):\n"
+             "    m = types.ModuleType(mod)\n"
+             "    with open(%r + '/' + f + '.bin', 'rb') as fh:\n"
+             "        exec(marshal.load(fh), m.__dict__)\n"
+             "    sys.modules[mod] = m\n"
+             "from xonsh.main import main\nmain()\n")
+
+
+def prepare_tables(scratch):
+    """Byte-compile the LALR tables of the working tree into the run's scratch dir."""
+    from vlib import tables
+
+    src = tables.install()
+    d = os.path.join(scratch, "tables")
+    os.makedirs(d, exist_ok=True)
+    for f in ("vp_table", "vc_table"):
+        path = os.path.join(src, f + ".py")
+        with open(path, "rb") as fh:
+            code = compile(fh.read(), path, "exec")
+        with open(os.path.join(d, f + ".bin"), "wb") as fh:
+            marshal.dump(code, fh)
+    return d
 
 
 def child_env(data_dir, sw_env):
@@ -499,7 +530,8 @@ def child_env(data_dir, sw_env):
 
 def run_child(args, data_dir, sw_env, cwd, stdin_text=None):
     os.makedirs(data_dir, exist_ok=True)
-    cmd = [sys.executable, "-c", CHILD_SHIM % common.VERIF, "--no-rc"] + list(args)
+    shim = FAST_SHIM % _state["tabledir"] if _state.get("tabledir") else CHILD_SHIM % common.VERIF
+    cmd = [sys.executable, "-c", shim, "--no-rc"] + list(args)
     try:
         r = subprocess.run(cmd, env=child_env(data_dir, sw_env), cwd=cwd, capture_output=True, timeout=120,
                            input=(stdin_text.encode() if stdin_text is not None else None),
@@ -684,20 +716,20 @@ class History:
         os.utime(path, (t, t))
         return os.lstat(path).st_mtime_ns, True
 
-    def well_formed(self, path):
+    def well_formed(self, path, corrupt_bytes_=None):
         """(ok, reason, code object) by the layout update_cache documents: version line, Python version
-        line, marshalled code."""
+        line, marshalled code.  Only called on files xonsh itself has (re)written."""
         try:
             with open(path, "rb") as f:
                 data = f.read()
         except OSError as e:
             return False, "cannot be read: %s" % e, None
+        if corrupt_bytes_ is not None and data == corrupt_bytes_:
+            return False, "still holds the corrupted bytes", None
         hdr = _state["header"]
         if not data.startswith(hdr):
             return False, "does not start with the header %r: %r" % (hdr, data[:40]), None
         body = data[len(hdr):]
-        if risky_body(body):
-            return False, "body not inspected (size field too large)", None
         try:
             code = marshal.loads(body)
         except Exception as e:  # noqa: BLE001
@@ -777,7 +809,8 @@ class History:
             finally:
                 reset_switches()
         if body_shows_token(self.script_kind) and self.script_tok not in ref["stdout"] + repr(ref.get("ns")) \
-                and not (fn.endswith(".py") and self.script_kind in ("env", "sub")):
+                and not (fn.endswith(".py") and self.script_kind in ("env", "sub")) \
+                and not (self.backend == "proc" and self.script_kind == "set"):
             raise common.HarnessError("the uncached reference does not show the token %r: %r" % (self.script_tok, ref))
         self.lab("run:%s:%s" % (cond, "cache-on" if on else "cache-off"))
         if via == "import":
@@ -802,13 +835,10 @@ class History:
         if path is None or not os.path.isfile(path):
             self.bad("not-rebuilt", "after a cached run over a corrupted entry [%s] there is no entry file" % what,
                      bucket="not-rebuilt:" + corrupt[0])
-        ok, why, code = self.well_formed(path)
+        ok, why, code = self.well_formed(path, corrupt[2])
         if not ok:
-            with open(path, "rb") as f:
-                same = f.read() == corrupt[2]
-            self.bad("not-rebuilt", "after a cached run the corrupted entry [%s] %s: %s" % (
-                what, "is still in place" if same else "was replaced by something that is not a valid entry", why),
-                bucket="not-rebuilt:" + corrupt[0])
+            self.bad("not-rebuilt", "after a cached run over the corrupted entry [%s] the entry file %s" % (what, why),
+                     bucket="not-rebuilt:" + corrupt[0])
         if self.backend == "proc":
             return
         # the rebuilt entry must be the compilation of the *current* source
@@ -924,25 +954,39 @@ class History:
         else:
             info = None
             path = self.find_entry()
-        if path is None or not os.path.isfile(path) or os.path.islink(path):
+        if path is not None and os.path.isdir(path) and not os.path.islink(path):
+            # our own earlier "dir" corruption: this time the user cleans it up
+            os.rmdir(path)
+            op["how"], op["arg"] = "undo-dir", None
+            if info is None:
+                self.entry_stamp = self.entry_corrupt = None
+            else:
+                info["stamp"] = info["corrupt"] = None
+            self.lab("corrupt:undo-dir")
+            return
+        if how == "undo-dir" or path is None or not os.path.isfile(path) or os.path.islink(path):
             self.lab("corrupt:no-entry")
             return self.ops.pop()
         with open(path, "rb") as f:
             current = f.read()
         noop = False
         if how in ("noncode", "random"):
-            cls = classify_body(marshal.dumps(NONCODE_OBJS[arg]) if how == "noncode" else bytes.fromhex(arg))
+            cls = classify_body(marshal.dumps(NONCODE_OBJS[arg]), True) if how == "noncode" else \
+                classify_body(bytes.fromhex(arg))
             if cls in ("risky", "code"):
                 self.lab("corrupt:discarded-" + cls)
                 return self.ops.pop()
             if cls == "noncode" and F1 in self.open:
                 return self.exclude(F1)
+        if how == "garbage" and risky_body(bytes.fromhex(arg)):
+            self.lab("corrupt:discarded-risky")
+            return self.ops.pop()
         if how == "chmod0":
             if F2 in self.open:
                 return self.exclude(F2)
             os.chmod(path, 0)
             new = current
-            if not _state["perm"]:
+            if not _state["perm"] or self.backend == "proc":
                 self.lab("corrupt:chmod0-not-enforced")
                 noop = True
         elif how == "dir":
@@ -958,18 +1002,601 @@ class History:
         else:
             new = corrupt_bytes(how, arg, current)
             noop = new == current
-            with open(path, "wb") as f:
-                f.write(new)
-        stamp = None
-        if how != "dir":
+            if not noop:
+                with open(path, "wb") as f:
+                    f.write(new)
+        if noop or how in ("dir", "chmod0"):
+            # nothing written: the entry keeps its place on the logical clock (and its staleness)
+            stamp = self.entry_stamp if info is None else info["stamp"]
+            if how == "dir":
+                stamp = None
+        else:
             t = self.tick()
             os.utime(path, (t, t))
             stamp = os.lstat(path).st_mtime_ns
-        state = None if (noop and how != "chmod0") else (how, arg, new, noop)
-        if how == "chmod0" and noop:
-            state = None
+        state = (how, arg, new, False)
+        if noop:
+            state = self.entry_corrupt if info is None else info["corrupt"]
         if info is None:
             self.entry_stamp, self.entry_corrupt = stamp, state
         else:
             info["stamp"], info["corrupt"] = stamp, state
         self.lab("corrupt:%s" % how + (":" + arg if how == "header" else ""))
+
+
+# ----------------------------------------------------------------------------------------
+# replaying a history without Hypothesis
+
+
+def check_history(case, open_ids=()):
+    """Re-execute {'ops': [...], 'backend': ...}.  -> Failure | None"""
+    h = History(open_ids, case.get("backend", "inproc"))
+    try:
+        try:
+            for op in case["ops"]:
+                h.step(json.loads(json.dumps(op)))
+        except Mismatch as e:
+            return e.failure
+    finally:
+        h.close()
+    return None
+
+
+def minimize_ops(failure, open_ids=()):
+    """Greedy removal of operations (never the first = init, never the last = the failing one)."""
+    best = failure
+    ops = list(failure.case["ops"])
+    backend = failure.case.get("backend", "inproc")
+    budget = 6 if backend == "proc" else 300
+    changed = True
+    while changed and budget > 0:
+        changed = False
+        i = len(ops) - 2
+        while i >= 1 and budget > 0:
+            trial = ops[:i] + ops[i + 1:]
+            budget -= 1
+            g = check_history({"ops": trial, "backend": backend}, open_ids)
+            if g is not None and g.bucket == failure.bucket and g.finding == failure.finding:
+                ops = list(g.case["ops"])
+                best = g
+                changed = True
+                i = min(i, len(ops) - 1)
+            i -= 1
+    return best
+
+
+# ----------------------------------------------------------------------------------------
+# cache-name functions over confusable pairs
+
+
+def _confusers():
+    def up_to_esc(s):
+        return "".join("_" + c.lower() if "A" <= c <= "Z" else c for c in s)
+
+    def esc_to_up(s):
+        out, i = [], 0
+        while i < len(s):
+            if s[i] == "_" and i + 1 < len(s) and "a" <= s[i + 1] <= "z":
+                out.append(s[i + 1].upper())
+                i += 2
+            else:
+                out.append(s[i])
+                i += 1
+        return "".join(out)
+
+    return [
+        up_to_esc, esc_to_up,
+        lambda s: s.replace(".", "_."), lambda s: s.replace("_.", "."),
+        lambda s: s.replace("_", "__"), lambda s: s.replace("__", "_"),
+        lambda s: s.lower(), lambda s: s.upper(), lambda s: s.swapcase(),
+        lambda s: s + "_", lambda s: "_" + s, lambda s: s + ".", lambda s: s.rstrip("_."),
+        lambda s: s + "." + CACHE_TAG, lambda s: s.replace(".", "_") or "_", lambda s: s.replace(" ", "_") or "_",
+        lambda s: s[:-1] or "x", lambda s: s + s[-1],
+    ]
+
+
+def pair_strategy():
+    from hypothesis import strategies as st
+
+    comp = st.one_of(st.sampled_from(FIXED_NAMES + ["d", "Dir A", "sub.d", "_x_", "UP", "a", "b"]),
+                     st.text(NAME_CHARS, min_size=1, max_size=10)).filter(valid_component)
+    paths = st.lists(comp, min_size=1, max_size=4)
+    conf = _confusers()
+
+    @st.composite
+    def pairs(draw):
+        if draw(st.integers(0, 5)) == 0:
+            k1, k2 = draw(st.sampled_from(CODE_KINDS)), draw(st.sampled_from(CODE_KINDS))
+            t1, t2 = draw(st.sampled_from(CODE_TOKS)), draw(st.sampled_from(CODE_TOKS))
+            return {"texts": [render_code(k1, t1), render_code(k2, t2)]}
+        p1 = draw(paths)
+        how = draw(st.integers(0, 5))
+        if how == 0:
+            p2 = draw(paths)
+        elif how == 1 and len(p1) > 1:
+            i = draw(st.integers(0, len(p1) - 2))
+            glue = draw(st.sampled_from(["", "_", ".", "_/", " "])).replace("/", "")
+            p2 = p1[:i] + [p1[i] + glue + p1[i + 1]] + p1[i + 2:]
+        elif how == 2:
+            p2 = p1[:-1] + [p1[-1] + "." + CACHE_TAG, draw(comp)]
+        else:
+            i = draw(st.integers(0, len(p1) - 1))
+            f = conf[draw(st.integers(0, len(conf) - 1))]
+            p2 = p1[:i] + [f(p1[i])] + p1[i + 1:]
+        if not all(valid_component(c) for c in p2):
+            p2 = p1[:-1] + ["fallback"]
+        return {"pair": [p1, p2]}
+
+    return pairs()
+
+
+def _is_ancestor(a, b):
+    return b.startswith(a.rstrip("/") + "/")
+
+
+def check_pair(case):
+    """-> (Failure | None, nontrivial)"""
+    cc = _state["cc"]
+    data = _state["XSH"].env["XONSH_DATA_DIR"]
+    if "texts" in case:
+        t1, t2 = case["texts"]
+        f1 = cc.get_cache_filename(cc.code_cache_name(t1), code=True)
+        f2 = cc.get_cache_filename(cc.code_cache_name(t2), code=True)
+        nt = t1 != t2 and t1[:16] == t2[:16]
+        if t1 != t2 and (f1 == f2 or _is_ancestor(f1, f2) or _is_ancestor(f2, f1)):
+            return Failure("code-entry-shared", case, "code strings %r and %r are cached in %r and %r" % (t1, t2, f1, f2)), nt
+        if (t1 == t2) != (f1 == f2):
+            return Failure("code-entry-unstable", case, "the same code string gives two cache files %r %r" % (f1, f2)), nt
+        for f in (f1, f2):
+            if os.path.commonpath([f, data]) != data:
+                return Failure("entry-outside-data-dir", case, "%r is outside %r" % (f, data)), nt
+        return None, nt
+    base = os.path.realpath(_state["scratch"])
+    p1, p2 = (os.path.join(base, "inj", *p) for p in case["pair"])
+    r1, r2 = os.path.realpath(p1), os.path.realpath(p2)
+    f1, f2 = cc.get_cache_filename(p1, code=False), cc.get_cache_filename(p2, code=False)
+    special = set("._") | set("ABCDEFGHIJKLMNOPQRSTUVWXYZ")
+    nt = r1 != r2 and all(any(ch in special for ch in "".join(p)) for p in case["pair"])
+    if r1 != r2 and f1 == f2:
+        return Failure("script-entry-shared", case, "scripts %r and %r share the cache file %r" % (r1, r2, f1)), nt
+    if r1 != r2 and (_is_ancestor(f1, f2) or _is_ancestor(f2, f1)):
+        return Failure("script-entry-nested", case, "the cache file of one script is a directory on the way to the "
+                       "other's: %r / %r" % (f1, f2)), nt
+    if r1 == r2 and f1 != f2:
+        return Failure("script-entry-unstable", case, "one real path, two cache files %r %r" % (f1, f2)), nt
+    code_root = os.path.join(data, "xonsh_code_cache")
+    for f in (f1, f2):
+        if os.path.commonpath([f, data]) != data or os.path.commonpath([f, code_root]) == code_root:
+            return Failure("entry-outside-data-dir", case, "%r is not in the script store under %r" % (f, data)), nt
+    return None, nt
+
+
+def worker_inject(arg):
+    seed, n, scratch = arg[:3]
+    _setup(scratch)
+    st = Stats()
+    seen = {}
+
+    def body(case):
+        f, nt = check_pair(case)
+        st.case(("pair", json.dumps(case, sort_keys=True)), nt, ["pair:" + ("texts" if "texts" in case else "paths")],
+                sample=case if nt else None, max_per_label=1)
+        if f is None and "pair" in case:
+            cc = _state["cc"]
+            base = os.path.realpath(_state["scratch"])
+            for p in case["pair"]:
+                full = os.path.join(base, "inj", *p)
+                fn = cc.get_cache_filename(full, code=False)
+                other = seen.setdefault(fn, os.path.realpath(full))
+                if other != os.path.realpath(full):
+                    f = Failure("script-entry-shared", {"pair": [os.path.relpath(other, os.path.join(base, "inj")).split("/"), p]},
+                                "scripts %r and %r share the cache file %r" % (other, full, fn))
+        if f is not None:
+            st.fail(f)
+
+    common.run_given(pair_strategy(), body, seed, n)
+    out, got = [], set()
+    for f in st.failures:
+        if f.bucket in got:
+            continue
+        got.add(f.bucket)
+        m = common.minimize(pair_strategy(), lambda c, _k=f.kind: (check_pair(c)[0] or Failure("", c)).kind == _k,
+                            seed, n, seconds=15)
+        if m is not None:
+            g, _ = check_pair(m)
+            if g is not None:
+                f = g
+        out.append(f)
+    st.failures = out
+    return st
+
+
+# ----------------------------------------------------------------------------------------
+# complete enumeration of truncation lengths
+
+
+def trunc_bases(tier):
+    """[(label, priming ops, corrupt-op template, run op)]"""
+    if tier == "thorough":
+        skinds = [k for k in SCRIPT_KINDS if k not in ("invalid", "invalid2")]
+        names = [["script.xsh"], ["Dir A", "sub.d", "My_Script.V2.xsh"], ["run.py"]]
+        ckinds = [k for k in CODE_KINDS if k != "invalid"]
+        cmodes = ["exec", "single"]
+    else:
+        skinds = ["print", "func", "env", "nonl", "exit"]
+        names = [["script.xsh"], ["Dir A", "sub.d", "My_Script.V2.xsh"]]
+        ckinds = ["print", "expr", "multi"]
+        cmodes = ["single", "exec"]
+    out = []
+    for i, k in enumerate(skinds):
+        for j, nm in enumerate(names):
+            if tier != "thorough" and (i + j) % len(names):
+                continue
+            if nm[-1].endswith(".py") and k in ("env", "sub"):
+                continue
+            prime = [{"op": "init", "path": nm}, {"op": "edit", "kind": k}, {"op": "run", "sw": ALL_ON}]
+            out.append(("script:%s:%s" % (k, nm[-1]), prime, {"op": "corrupt", "how": "trunc"},
+                        {"op": "run", "sw": ALL_ON, "via": "import" if (i + j) % 3 == 2 else "script"}))
+    for i, k in enumerate(ckinds):
+        for j, m in enumerate(cmodes):
+            if tier != "thorough" and (i + j) % len(cmodes):
+                continue
+            c = {"op": "code", "kind": k, "tok": "c1", "mode": m, "sw": ALL_ON}
+            prime = [{"op": "init", "path": ["script.xsh"]}, dict(c)]
+            out.append(("code:%s:%s" % (k, m), prime,
+                        {"op": "corrupt", "target": "code", "kind": k, "tok": "c1", "how": "trunc"}, dict(c)))
+    return out
+
+
+def worker_trunc(arg):
+    shard, nshards, tier, scratch, open_ids = arg
+    _setup(scratch)
+    st = Stats()
+    for bi, (label, prime, cor, runop) in enumerate(trunc_bases(tier)):
+        if bi % nshards != shard:
+            continue
+
+        def fresh():
+            h = History(open_ids)
+            for op in prime:
+                h.step(json.loads(json.dumps(op)))
+            return h
+
+        try:
+            h = fresh()
+        except Mismatch as e:
+            e.failure.bucket = "trunc-priming:" + e.failure.bucket
+            st.fail(e.failure)
+            continue
+        try:
+            if cor.get("target") == "code":
+                path = h.code_entry(render_code(cor["kind"], cor["tok"]))["file"]
+            else:
+                path = h.find_entry()
+            if path is None or not os.path.isfile(path):
+                # nothing to truncate (the floor on enumerated lengths in main() keeps this from passing silently)
+                st.inconclusive += 1
+                st.notes.append("truncation base %s: the priming run left no cache entry" % label)
+                continue
+            total = os.path.getsize(path)
+            ok, why, _ = h.well_formed(path)
+            if not ok:
+                st.fail(Failure("primed-entry-malformed", {"ops": prime, "backend": "inproc"},
+                                "the entry written by a first cached run %s" % why))
+                continue
+            st.hist["trunc-entries"] += 1
+            st.hist["trunc-bytes"] += total
+            for L in range(total + 1):
+                ops = [dict(cor, arg=L), dict(runop)]
+                try:
+                    for op in ops:
+                        h.step(json.loads(json.dumps(op)))
+                    fail = None
+                except Mismatch as e:
+                    fail = e.failure
+                    fail.case = {"ops": prime + ops, "backend": "inproc"}
+                    fail.bucket = "trunc:" + fail.bucket
+                st.case(("trunc", label, L), L < total, ["trunc-length", "trunc:" + label.split(":")[0]],
+                        sample={"entry": label, "length": L, "of": total} if L in (0, total // 2) else None,
+                        max_per_label=2)
+                if fail is not None:
+                    st.fail(fail)
+                    h.close()
+                    h = fresh()
+                del h.ops[len(prime):]
+                del h.labels[:]
+        finally:
+            h.close()
+    # one representative per bucket is enough
+    seen, out = set(), []
+    for f in st.failures:
+        if f.bucket not in seen:
+            seen.add(f.bucket)
+            out.append(f)
+    st.failures = out
+    return st
+
+
+# ----------------------------------------------------------------------------------------
+# the state machine
+
+_ctx = {}
+
+
+def make_machine(backend):
+    from hypothesis import strategies as st
+    from hypothesis.stateful import RuleBasedStateMachine, initialize, rule
+
+    exts = st.sampled_from(["", ".xsh", ".xsh", ".xsh", ".py", ".XSH"])
+    rnd_name = st.builds(lambda s, e: s + e, st.text(NAME_CHARS, min_size=1, max_size=20), exts)
+    names = st.one_of(st.sampled_from(FIXED_NAMES), st.sampled_from(FIXED_NAMES), st.sampled_from(FIXED_NAMES),
+                      rnd_name, rnd_name, rnd_name, rnd_name, st.sampled_from(LONG_NAMES)).filter(valid_component)
+    dirnames = st.one_of(st.sampled_from(["d", "Dir A", "sub.d", "_x_", "UP", "D" * 130, "é", "a.%s" % CACHE_TAG]),
+                         st.text(NAME_CHARS, min_size=1, max_size=8)).filter(valid_component)
+    paths = st.builds(lambda d, n: d + [n], st.lists(dirnames, max_size=3), names)
+    bit = st.integers(0, 1)
+    sws = st.one_of(st.just(ALL_ON), st.just(ALL_ON), st.just(DEFAULTS), st.just(DEFAULTS),
+                    st.lists(bit, min_size=4, max_size=4))
+    on_sws = st.one_of(st.just(ALL_ON), st.just(ALL_ON), st.just(DEFAULTS), st.lists(bit, min_size=4, max_size=4))
+    code_sws = st.one_of(st.just(ALL_ON), st.just(ALL_ON), st.just([1, 1, 1, 0]), st.just([1, 0, 1, 1]),
+                         st.lists(bit, min_size=4, max_size=4))
+    kinds = st.sampled_from(SCRIPT_KINDS)
+    vias = st.sampled_from(["script", "script", "script", "import"])
+    ckinds = st.sampled_from(CODE_KINDS + ["print", "expr", "expr", "multi", "nonl"])
+    ctoks = st.sampled_from(CODE_TOKS + ["c0", "c0"])
+    modes = st.sampled_from(["exec", "exec", "single", "single", "single", "eval"])
+    hows = st.one_of(
+        st.tuples(st.just("trunc"), st.one_of(st.integers(0, 48), st.integers(0, 400), st.integers(0, 2500))),
+        st.tuples(st.just("header"), st.sampled_from(HEADER_VARIANTS)),
+        st.tuples(st.just("header"), st.sampled_from(HEADER_VARIANTS)),
+        st.tuples(st.just("noncode"), st.sampled_from(sorted(NONCODE_OBJS))),
+        st.tuples(st.just("random"), st.binary(max_size=24).map(sanitize).map(bytes.hex)),
+        st.tuples(st.just("garbage"), st.binary(max_size=40).map(sanitize).map(bytes.hex)),
+        st.tuples(st.just("chmod0"), st.none()),
+        st.tuples(st.just("dir"), st.none()),
+    )
+
+    class CacheMachine(RuleBasedStateMachine):
+        def __init__(self):
+            super().__init__()
+            self.h = History(_ctx["open_ids"], backend)
+
+        def teardown(self):
+            h = self.h
+            h.close()
+            stats = _ctx["stats"]
+            if _ctx.get("failed") or not h.ops:
+                return
+            stats.case(("history", backend, json.dumps(h.ops, sort_keys=True)), h.nontrivial,
+                       ["history:" + backend] + (["history-nontrivial:" + backend] if h.nontrivial else []),
+                       sample=({"backend": backend, "ops": h.ops[:12], "of": len(h.ops)} if h.nontrivial else None),
+                       max_per_label=2)
+            stats.hist["steps:" + backend] += len(h.ops)
+            for lab in h.labels:
+                stats.hist[lab] += 1
+            for fid, n in h.excluded.items():
+                stats.excluded_known[fid] += n
+
+        def do(self, *ops):
+            try:
+                for op in ops:
+                    self.h.step(op)
+            except Mismatch:
+                _ctx["failed"] = True
+                raise
+
+        @initialize(p=paths, link=st.sampled_from([False, False, True]), rel=st.booleans(), k=kinds, sw=on_sws)
+        def start(self, p, link, rel, k, sw):
+            self.do({"op": "init", "path": list(p), "link": link, "rel": rel}, {"op": "edit", "kind": k},
+                    {"op": "run", "sw": list(sw)})
+
+        @rule(k=kinds, sw=st.one_of(st.none(), on_sws), via=vias)
+        def edit(self, k, sw, via):
+            self.do({"op": "edit", "kind": k})
+            if sw is not None:
+                self.do({"op": "run", "sw": list(sw), "via": via})
+
+        @rule(sw=st.one_of(st.none(), on_sws))
+        def touch(self, sw):
+            self.do({"op": "touch"})
+            if sw is not None:
+                self.do({"op": "run", "sw": list(sw)})
+
+        @rule(sw=sws, via=vias)
+        def run(self, sw, via):
+            self.do({"op": "run", "sw": list(sw), "via": via})
+
+        @rule(k=ckinds, t=ctoks, m=modes, sw=code_sws)
+        def code(self, k, t, m, sw):
+            self.do({"op": "code", "kind": k, "tok": t, "mode": m, "sw": list(sw)})
+
+        @rule(how=hows, sw=on_sws, via=vias)
+        def corrupt_script(self, how, sw, via):
+            self.do({"op": "corrupt", "how": how[0], "arg": how[1]}, {"op": "run", "sw": list(sw), "via": via})
+
+        @rule(how=hows, k=ckinds, t=ctoks, m=modes, sw=code_sws, prime=st.booleans())
+        def corrupt_code(self, how, k, t, m, sw, prime):
+            c = {"op": "code", "kind": k, "tok": t, "mode": m, "sw": list(sw)}
+            if prime:
+                self.do(dict(c, sw=list(ALL_ON)))
+            self.do({"op": "corrupt", "target": "code", "kind": k, "tok": t, "how": how[0], "arg": how[1]}, dict(c))
+
+    return CacheMachine
+
+
+def worker_machine(arg):
+    backend, seed, n_examples, steps, scratch, open_ids, tabledir = arg
+    _setup(scratch, tabledir)
+    stats = Stats()
+    _ctx.clear()
+    _ctx.update(open_ids=set(open_ids), stats=stats, failed=False)
+    exc = common.run_machine(make_machine(backend), seed, n_examples, steps, shrink=(backend == "inproc"),
+                             shrink_seconds=10)
+    f = common.machine_failure(exc, "C19 cache machine (%s)" % backend)
+    if f is not None and backend == "proc":
+        # child processes are slow: minimise the same history in-process when it fails there too, then
+        # confirm the small history with child processes
+        g = check_history(dict(f.case, backend="inproc"), open_ids)
+        if g is not None:
+            g = minimize_ops(g, open_ids)
+            p = check_history(dict(g.case, backend="proc"), open_ids)
+            stats.fail(p if p is not None else g)
+        else:
+            g = check_history(f.case, open_ids)
+            stats.fail(minimize_ops(g, open_ids) if g is not None else f)
+    elif f is not None:
+        g = check_history(f.case, open_ids)
+        if g is None:
+            stats.notes.append("shrunk history did not fail again on replay (kept the original failure): %s"
+                               % json.dumps(f.case)[:300])
+            stats.fail(f)
+        else:
+            stats.fail(minimize_ops(g, open_ids))
+    if not _state["perm"]:
+        stats.notes.append("chmod 000 is not enforced for this process (capabilities could not be dropped): the "
+                           "unreadable-entry class was trivial")
+    else:
+        stats.hist["workers-with-real-permission-checks"] += 1
+    return stats
+
+
+def worker_any(task):
+    t0 = _time.time()
+    which, arg = task
+    fn = {"machine": worker_machine, "trunc": worker_trunc, "inject": worker_inject, "replay": worker_replay}[which]
+    st = fn(arg)
+    if isinstance(st, Stats):
+        st.hist["worker-seconds:" + which + (":" + arg[0] if which == "machine" else "")] += int(_time.time() - t0)
+    return st
+
+
+def check_case(case, open_ids=()):
+    if "ops" in case:
+        return check_history(case, open_ids)
+    return check_pair(case)[0]
+
+
+def worker_replay(arg):
+    cases, scratch, tabledir = arg
+    _setup(scratch, tabledir)
+    out = []
+    for case in cases:
+        f = check_case(case)
+        out.append(None if f is None else f.to_json())
+    return {"results": out, "perm": _state["perm"]}
+
+
+# ----------------------------------------------------------------------------------------
+
+
+def _replays_in_worker(run, cases, tabledir):
+    d = os.path.join(run.scratch, "replay")
+    os.makedirs(d, exist_ok=True)
+    res = common.pool_map(run, __name__, "worker_any", [("replay", (cases, d, tabledir))], procs=1)
+    if not res[0]["perm"]:
+        run.stats.notes.append("replays ran without enforced file permissions")
+    return [None if r is None else Failure.from_json(r) for r in res[0]["results"]]
+
+
+def main(run):
+    import glob
+
+    tabledir = prepare_tables(run.scratch)      # also builds the LALR tables once, before any worker needs them
+    files = [p for p in sorted(glob.glob(os.path.join(common.REPLAY_DIR, PROP, "*.json")))
+             if not os.path.basename(p).startswith("violation-")]
+    cases = []
+    for p in files:
+        with open(p) as f:
+            body = json.load(f)
+        cases.append(body.get("case", body))
+    cache = {}
+    if cases:
+        for c, r in zip(cases, _replays_in_worker(run, cases, tabledir)):
+            cache[json.dumps(c, sort_keys=True)] = r
+    common.replay_tier(run, lambda case: cache[json.dumps(case, sort_keys=True)])
+
+    open_ids = sorted(run.known_open)
+    quick = run.tier == "quick"
+    nprocs = 10 if quick else 16
+    n_in, n_proc, n_tr = (6, 3, 2) if quick else (11, 3, 4)
+    per_in = run.n(180, 2500)
+    per_proc = run.n(4, 70)
+    tasks = []
+    for w in range(n_proc):
+        tasks.append(("machine", ("proc", common.worker_seed(run.seed, 50 + w), per_proc, 9,
+                                  os.path.join(run.scratch, "p%d" % w), open_ids, tabledir)))
+    for s in range(n_tr):
+        tasks.append(("trunc", (s, n_tr, run.tier, os.path.join(run.scratch, "t%d" % s), open_ids)))
+    for w in range(n_in):
+        tasks.append(("machine", ("inproc", common.worker_seed(run.seed, w), per_in, run.n(25, 40),
+                                  os.path.join(run.scratch, "m%d" % w), open_ids, tabledir)))
+    tasks.append(("inject", (common.worker_seed(run.seed, 90), run.n(5000, 100000), os.path.join(run.scratch, "inj"))))
+    common.pool_map(run, __name__, "worker_any", tasks, procs=nprocs)
+
+    h = run.stats.hist
+    run.extra["steps_executed"] = h.get("steps:inproc", 0) + h.get("steps:proc", 0)
+    run.extra["exhaustive_subspace"] = ("every truncation length 0..len of %d cache entries (%d lengths): %s"
+                                        % (h.get("trunc-entries", 0), h.get("trunc-length", 0),
+                                           ", ".join(b[0] for b in trunc_bases(run.tier))))
+    run.extra["open_findings_excluded_from_generation"] = open_ids
+    if not run.stats.failures:
+        def tot(prefix, suffix=""):
+            return sum(v for k, v in h.items() if k.startswith(prefix) and k.endswith(suffix))
+
+        floors = [
+            ("runs over a stale entry after an edit, cache on", tot("run:stale-after-edit", "cache-on"), 50),
+            ("runs over a stale entry after a touch, cache on", tot("run:stale-after-touch", "cache-on"), 10),
+            ("runs over a fresh entry, cache on (hits)", tot("run:fresh", "cache-on"), 50),
+            ("runs with the cache off over an existing entry", tot("run:stale", "cache-off") + tot("run:fresh", "cache-off")
+             + tot("run:corrupt", "cache-off"), 10),
+            ("runs over a truncated entry", tot("run:corrupt:trunc", "cache-on"), 10),
+            ("runs over a foreign-header entry", tot("run:corrupt:header", "cache-on"), 10),
+            ("runs over a garbage entry", tot("run:corrupt:garbage", "cache-on") + tot("run:corrupt:random", "cache-on"), 10),
+            ("runs over a directory in place of the entry", tot("run:corrupt:dir", "cache-on"), 3),
+            ("code runs over a fresh entry (hits)", tot("code:exec:fresh", "cache-on") + tot("code:single:fresh", "cache-on"), 30),
+            ("code runs over a corrupted entry", tot("code:exec:corrupt") + tot("code:single:corrupt"), 10),
+            ("runs through the import hook", h.get("via:import", 0), 10),
+            ("child-process histories", h.get("history:proc", 0), 2),
+            ("truncation lengths", h.get("trunc-length", 0), 500),
+            ("path pairs", h.get("pair:paths", 0), 500),
+        ]
+        if F1 not in open_ids:
+            floors.append(("runs over a non-code entry", tot("run:corrupt:noncode", "cache-on"), 5))
+        if F2 not in open_ids and h.get("workers-with-real-permission-checks"):
+            floors.append(("runs over an unreadable entry", tot("run:corrupt:chmod0", "cache-on"), 3))
+        low = ["%s: %d < %d" % f for f in floors if f[1] < f[2]]
+        if low:
+            raise common.HarnessError("generator incomplete, under the floor: " + "; ".join(low))
+    run.assumptions += [
+        "edits always give the source a strictly newer mtime than every existing cache entry (logical clock, whole "
+        "seconds); replacing the source by different text with an *older or equal* mtime is outside the property",
+        "every run starts from the same fresh namespace (xonsh's compilation is context-sensitive; varying the "
+        "namespace between the caching and the cached run is outside the property's quantifier) and the script is "
+        "always named by one spelling of its path",
+        "the uncached reference is compile_code + run_compiled_code applied to the current text (no cache code "
+        "involved); bodies avoid the local variable names of run_script_with_cache, which leak into the compile "
+        "context when loc is None",
+        "a loadable, well-formed code object of the *right* version that simply is different code (e.g. a flipped "
+        "byte inside the bytecode) is not generated: the format has no checksum and the property does not ask for one",
+        "corruptions are files or a directory in place of the entry; symbolic links, FIFOs and unwritable parent "
+        "directories in the cache tree are not generated",
+        "child processes enter through xonsh.main.main() (what `python -m xonsh` calls) with --no-rc, PYTHONPATH=%s "
+        "and the LALR tables built from the working tree installed first; a plain `python -m xonsh` would read "
+        "xonsh/parser_table.py of the tree instead, which makes no difference to this property" % common.REPO,
+        "EACCES is made real by dropping CAP_DAC_OVERRIDE in the worker; child processes run by root regain it, so "
+        "the unreadable-entry class is only meaningful in-process",
+        "eval mode of run_code_with_cache cannot succeed in this tree (compile_code appends a newline and the eval "
+        "grammar then yields a Module): it is exercised, and compared, as an error path only",
+    ]
+
+
+def replay(run, path):
+    with open(path) as f:
+        d = json.load(f)
+    case = d.get("case", d)
+    f = _replays_in_worker(run, [case], prepare_tables(run.scratch))[0]
+    if f is None:
+        print("replay: property holds on this case")
+        return 0
+    print("VIOLATION property=%s replay=%s kind=%s %s" % (PROP, path, f.kind, common._oneline(f.detail)))
+    return 1
